@@ -2,6 +2,7 @@ package an
 
 import (
 	"fmt"
+	"go/constant"
 	"go/token"
 	"go/types"
 	"sort"
@@ -974,6 +975,77 @@ func c19Args(w *World, r *Result) {
 					continue
 				}
 				parity = true
+			}
+		}
+		// every option writes the settings of its own: a setting written under two different
+		// options (the output directory also set by -i) depends on the order of the options
+		armOf := func(b *ssa.BasicBlock) string {
+			for d := b; d != nil; d = d.Idom() {
+				var ks []string
+				for _, p := range d.Preds {
+					c, neg := condOf(p)
+					bo, ok := c.(*ssa.BinOp)
+					if !ok || neg || bo.Op != token.EQL || len(p.Succs) != 2 || p.Succs[0] != d {
+						continue
+					}
+					for _, side := range []ssa.Value{bo.X, bo.Y} {
+						if k, ok := side.(*ssa.Const); ok && k.Value != nil && k.Value.Kind() == constant.String {
+							ks = append(ks, constant.StringVal(k.Value))
+						}
+					}
+				}
+				if len(ks) > 0 {
+					sort.Strings(ks)
+					return strings.Join(ks, ",")
+				}
+			}
+			return ""
+		}
+		arms := map[int]map[string]string{}
+		for _, b := range fn.Blocks {
+			for _, ins := range b.Instrs {
+				st, ok := ins.(*ssa.Store)
+				if !ok {
+					continue
+				}
+				fa, ok := st.Addr.(*ssa.FieldAddr)
+				if !ok {
+					continue
+				}
+				if _, isLocal := fa.X.(*ssa.Alloc); !isLocal {
+					continue
+				}
+				arm := armOf(b)
+				if arm == "" {
+					continue
+				}
+				if arms[fa.Field] == nil {
+					arms[fa.Field] = map[string]string{}
+				}
+				arms[fa.Field][arm] = w.Pos(st.Pos())
+			}
+		}
+		shared := ""
+		var fields []int
+		for f := range arms {
+			fields = append(fields, f)
+		}
+		sort.Ints(fields)
+		for _, f := range fields {
+			if len(arms[f]) > 1 {
+				var as []string
+				for a, p := range arms[f] {
+					as = append(as, a+" ("+p+")")
+				}
+				sort.Strings(as)
+				shared = strings.Join(as, " and ")
+			}
+		}
+		if len(arms) > 0 {
+			if shared != "" {
+				r.Bad(rule, "args:own-setting", w.Pos(at), "one setting is written under two different options: "+shared+" — the value given with one of them is lost when the other follows it on the command line")
+			} else {
+				r.Ok(rule, "args:own-setting", w.Pos(at), fmt.Sprintf("each of the %d settings is written under one option only", len(arms)))
 			}
 		}
 		if parity {
